@@ -425,3 +425,239 @@ func ruleRegexGroupOrder(c *Ctx, rule string) {
 		ob.Bad("the counter is incremented and read only after the group's body has been parsed: nested groups are numbered inside-out (`((a)b)\\1` binds _1 = a), unlike every conventional engine")
 	}
 }
+
+// ruleQuantifierWrapsAtom implements C14.R4: a quantifier applies to the atom that precedes it, as a whole. In the function that
+// combines an atom with its quantifier, what is stored into the Body of the loop returned by parse_regexp_quantifier is the very
+// value the atom parser returned (possibly wrapped in an AstPrimary) - not a part taken out of it. `(a|b)*` repeats the group,
+// binding the last repetition; moving the loop inside the group's declaration binds all of them.
+func ruleQuantifierWrapsAtom(c *Ctx, rule string) {
+	r := c.R
+	q := c.Fn("ast", "parse_regexp_quantifier")
+	loopT := c.NamedType("ast", "AstLoop")
+	if q == nil || loopT == nil {
+		r.Ob(rule, "anchor ast.parse_regexp_quantifier / AstLoop", "").Und("not found")
+		return
+	}
+	n := 0
+	for _, fn := range c.SrcFuncs("ast") {
+		if fn == q || len(callsTo(fn, q)) == 0 {
+			continue
+		}
+		// loops returned by the quantifier parser
+		isQuantLoop := func(v ssa.Value) bool {
+			seen := map[ssa.Value]bool{}
+			var w func(v ssa.Value, d int) bool
+			w = func(v ssa.Value, d int) bool {
+				if d > 6 || seen[v] {
+					return false
+				}
+				seen[v] = true
+				switch x := v.(type) {
+				case *ssa.Extract:
+					if call, ok := x.Tuple.(*ssa.Call); ok && call.Call.StaticCallee() == q && x.Index == 0 {
+						return true
+					}
+				case *ssa.Phi:
+					for _, e := range x.Edges {
+						if w(e, d+1) {
+							return true
+						}
+					}
+				case *ssa.UnOp:
+					if a, ok := x.X.(*ssa.Alloc); ok {
+						for _, ref := range *a.Referrers() {
+							if st, ok := ref.(*ssa.Store); ok && st.Addr == ssa.Value(a) && w(st.Val, d+1) {
+								return true
+							}
+						}
+					}
+				}
+				return false
+			}
+			return w(v, 0)
+		}
+		isParsedAtom := func(v ssa.Value) bool {
+			for d := 0; d < 6; d++ {
+				switch x := v.(type) {
+				case *ssa.MakeInterface:
+					v = x.X
+					continue
+				case *ssa.ChangeInterface:
+					v = x.X
+					continue
+				case *ssa.Alloc:
+					if n, ok := deref(x.Type()).(*types.Named); !ok || n.Obj().Name() != "AstPrimary" {
+						return true // an atom built in place (a string or character-class literal)
+					}
+					// &AstPrimary{atom}: follow the single field store
+					var inner ssa.Value
+					for _, ref := range *x.Referrers() {
+						if fa, ok := ref.(*ssa.FieldAddr); ok {
+							for _, r2 := range *fa.Referrers() {
+								if st, ok := r2.(*ssa.Store); ok && st.Addr == ssa.Value(fa) {
+									inner = st.Val
+								}
+							}
+						}
+					}
+					if inner == nil {
+						return false
+					}
+					v = inner
+					continue
+				case *ssa.UnOp:
+					// a local variable holding the atom
+					if a, ok := x.X.(*ssa.Alloc); ok {
+						cnt, all := 0, true
+						for _, ref := range *a.Referrers() {
+							if st, ok := ref.(*ssa.Store); ok && st.Addr == ssa.Value(a) {
+								cnt++
+								if !isParsedAtomShallow(st.Val, c) {
+									all = false
+								}
+							}
+						}
+						return cnt >= 1 && all
+					}
+					return false
+				case *ssa.Phi:
+					for _, e := range x.Edges {
+						if !isParsedAtomShallow(e, c) {
+							return false
+						}
+					}
+					return len(x.Edges) > 0
+				case *ssa.Extract:
+					return isParsedAtomShallow(x, c)
+				}
+				return false
+			}
+			return false
+		}
+		k := 0
+		instrsOf(fn, func(in ssa.Instruction) {
+			st, ok := in.(*ssa.Store)
+			if !ok {
+				return
+			}
+			fa, ok := st.Addr.(*ssa.FieldAddr)
+			if !ok || !types.Identical(deref(fa.X.Type()), loopT) || fieldName(loopT, fa.Field) != "Body" || !isQuantLoop(fa.X) {
+				return
+			}
+			n++
+			k++
+			ob := r.Ob(rule, fmt.Sprintf("%s: quantifier #%d repeats the atom it follows, as parsed", fnName(fn), k), c.pos(st.Pos()))
+			if isParsedAtom(st.Val) {
+				ob.OKnt("the loop body is the value returned by the atom parser (wrapped in a primary at most)")
+			} else {
+				ob.Bad("the loop body is " + exprStr(st.Val) + ", not the atom the parser returned for the text before the quantifier: the quantifier repeats something else than what it follows (for a group: the inside of its declaration, so the group binds all repetitions instead of the last)")
+			}
+		})
+	}
+	r.Floor(rule, "places where a quantifier gets its body", n, 3)
+}
+
+// isParsedAtomShallow: result #0 of a call to a function of package ast (an atom parser), or a freshly built atom literal.
+func isParsedAtomShallow(v ssa.Value, c *Ctx) bool {
+	for d := 0; d < 4; d++ {
+		switch x := v.(type) {
+		case *ssa.MakeInterface:
+			v = x.X
+			continue
+		case *ssa.Extract:
+			call, ok := x.Tuple.(*ssa.Call)
+			return ok && x.Index == 0 && call.Call.StaticCallee() != nil && c.isRepoFn(call.Call.StaticCallee())
+		case *ssa.Alloc:
+			return true // a literal atom built here (character class, string)
+		}
+		return false
+	}
+	return false
+}
+
+// ruleQuantifierCharsAgree implements C14.R5: every place in the regex sub-parser that asks "does a quantifier follow?" must agree
+// with parse_regexp_quantifier on what starts one. The quantifier parser dispatches on a set of characters; a string constant
+// in the same file that is used as a character set and contains some of them must contain all of them.
+func ruleQuantifierCharsAgree(c *Ctx, rule string) {
+	r := c.R
+	q := c.Fn("ast", "parse_regexp_quantifier")
+	if q == nil {
+		r.Ob(rule, "anchor ast.parse_regexp_quantifier", "").Und("not found")
+		return
+	}
+	// the characters the quantifier parser compares its first character with
+	starts := map[rune]bool{}
+	instrsOf(q, func(in ssa.Instruction) {
+		b, ok := in.(*ssa.BinOp)
+		if !ok || b.Op != token.EQL {
+			return
+		}
+		k, ok := constInt(b.Y)
+		if !ok {
+			return
+		}
+		// only comparisons of the character at the entry index (the dispatch), not of later characters: the operand is regexp[index]
+		if strings.HasSuffix(exprStr(b.X), "[index]") {
+			starts[rune(k)] = true
+		}
+	})
+	ob := r.Ob(rule, "character sets that mention quantifier characters mention all of them", c.pos(q.Pos()))
+	if len(starts) < 3 {
+		ob.Und(fmt.Sprintf("the dispatch of parse_regexp_quantifier was not recognised (characters found: %d)", len(starts)))
+		return
+	}
+	var bad []string
+	nsets := 0
+	file := c.Fset.Position(q.Pos()).Filename
+	for _, fn := range c.SrcFuncs("ast") {
+		if c.Fset.Position(fn.Pos()).Filename != file {
+			continue
+		}
+		instrsOf(fn, func(in ssa.Instruction) {
+			call, ok := in.(*ssa.Call)
+			if !ok {
+				return
+			}
+			sc := call.Call.StaticCallee()
+			if sc == nil || sc.Pkg == nil || sc.Pkg.Pkg.Path() != "strings" {
+				return
+			}
+			switch sc.Name() {
+			case "ContainsRune", "ContainsAny", "IndexByte", "IndexRune", "IndexAny", "Contains":
+			default:
+				return
+			}
+			for _, a := range call.Call.Args {
+				k, ok := a.(*ssa.Const)
+				if !ok || k.Value == nil || k.Value.Kind() != constant.String {
+					continue
+				}
+				set := constant.StringVal(k.Value)
+				has, missing := 0, ""
+				for ch := range starts {
+					if strings.ContainsRune(set, ch) {
+						has++
+					} else {
+						missing += string(ch)
+					}
+				}
+				if has >= 2 {
+					nsets++
+					if missing != "" {
+						bad = append(bad, fmt.Sprintf("%q in %s lacks %q [%s]", set, fnName(fn), missing, c.pos(call.Pos())))
+					}
+				}
+			}
+		})
+	}
+	var cs []string
+	for ch := range starts {
+		cs = append(cs, string(ch))
+	}
+	sort.Strings(cs)
+	if len(bad) == 0 {
+		ob.OKnt(fmt.Sprintf("parse_regexp_quantifier dispatches on %v; %d character set(s) elsewhere in the file mention them, each completely", cs, nsets))
+	} else {
+		ob.Bad("a quantifier can start with any of " + strings.Join(cs, " ") + ", but " + strings.Join(bad, "; ") + ": text in front of the missing quantifier is taken for plain characters and the quantifier applies to the wrong atom or is matched literally")
+	}
+}
